@@ -26,12 +26,14 @@
 (* "own" means the reply to the caller's own request; never a foreign one. *)
 (*   OneOutcome, OwnReply (by construction of RRead), NoCrash, and under    *)
 (*   fairness AllDone.                                                     *)
+(* OutOfSync = "panic" is what the code did (the reader panics on an        *)
+(* opaque it does not know); "recover" treats it like a lost connection.   *)
 (* CaptureRW = TRUE models a batcher that remembers the connection it saw  *)
 (* before the hand-off (a repair that was considered: it trades the crash  *)
 (* for a hang, see DESIGN.md).                                             *)
 (***************************************************************************)
 EXTENDS Integers, Sequences, FiniteSets, TLC
-CONSTANTS Callers, BatchSize, MaxTries, CutBudget, CaptureRW
+CONSTANTS Callers, BatchSize, MaxTries, CutBudget, CaptureRW, OutOfSync
 
 VARIABLES cst, tries, out,         \* callers
           reqchan,                 \* buffered channel of caller ids
@@ -44,7 +46,7 @@ VARIABLES cst, tries, out,         \* callers
 vars == <<cst, tries, out, reqchan, bst, breqs, bbatch, bgen, nextid, rst, rbatch, vst, vbatch, gen, up, wreq, wresp, cuts, crashed>>
 
 NoBatch == [id |-> 0, owed |-> {}]
-Gens == 0..(CutBudget+1)
+Gens == 0..(CutBudget + Cardinality(Callers) * MaxTries + 1)
 
 Init ==
   /\ cst = [c \in Callers |-> "idle"] /\ tries = [c \in Callers |-> 0] /\ out = [c \in Callers |-> "none"]
@@ -103,8 +105,17 @@ RRead == /\ ~crashed /\ rst = "reading" /\ rbatch.owed # {} /\ up[gen] /\ wresp[
               /\ IF r[1] = rbatch.id /\ r[2] \in rbatch.owed
                    THEN /\ cst[r[2]] = "waiting" /\ Deliver(r[2], "own")
                         /\ rbatch' = [rbatch EXCEPT !.owed = @ \ {r[2]}] /\ UNCHANGED crashed
-                   ELSE /\ crashed' = TRUE /\ UNCHANGED <<cst, tries, out, rbatch>>     \* panic("FATAL ERROR: Batch out of sync")
+                   ELSE IF OutOfSync = "panic"
+                        THEN /\ crashed' = TRUE /\ UNCHANGED <<cst, tries, out, rbatch>>     \* panic("FATAL ERROR: Batch out of sync")
+                        ELSE /\ FALSE /\ UNCHANGED <<cst, tries, out, rbatch, crashed>>       \* handled by RStale below
          /\ UNCHANGED <<reqchan, bst, breqs, bbatch, bgen, nextid, rst, vst, vbatch, gen, up, wreq, cuts>>
+\* OutOfSync = "recover": a response that does not belong to the current batch is treated like a
+\* broken connection - the batch goes to the recovery goroutine, which closes and re-opens the connection
+RStale == /\ ~crashed /\ OutOfSync = "recover" /\ rst = "reading" /\ rbatch.owed # {} /\ up[gen] /\ wresp[gen] # <<>>
+          /\ LET r == Head(wresp[gen]) IN ~(r[1] = rbatch.id /\ r[2] \in rbatch.owed)
+          /\ vst = "idle"
+          /\ vbatch' = rbatch /\ vst' = "notify" /\ rst' = "waitrecovered" /\ rbatch' = NoBatch
+          /\ UNCHANGED <<cst, tries, out, reqchan, bst, breqs, bbatch, bgen, nextid, gen, up, wreq, wresp, cuts, crashed>>
 RDone == /\ ~crashed /\ rst = "reading" /\ rbatch.owed = {}
          /\ rst' = "waitbatch" /\ rbatch' = NoBatch
          /\ UNCHANGED <<cst, tries, out, reqchan, bst, breqs, bbatch, bgen, nextid, vst, vbatch, gen, up, wreq, wresp, cuts, crashed>>
@@ -129,7 +140,7 @@ VSignal == /\ ~crashed /\ vst = "signal" /\ rst = "waitrecovered"
 Next == \/ \E c \in Callers : Submit(c)
         \/ BRecv \/ BForm \/ BHandoff \/ BWrite
         \/ \E g \in Gens : BackendStep(g) \/ Cut(g)
-        \/ RRead \/ RDone \/ REof
+        \/ RRead \/ RStale \/ RDone \/ REof
         \/ VNotify \/ VReconnect \/ VSignal
 Spec == Init /\ [][Next]_vars
 FairSpec == Spec /\ WF_vars(Next)
